@@ -9,5 +9,6 @@ CONSTANTS
 INIT Init
 NEXT Next
 VIEW View
-INVARIANTS P1 P2 P3 P4 P5 P6 P7
+INVARIANTS P1 P4
 ACTION_CONSTRAINT DumpEdge
+PROPERTIES P2A P3A P5A P6A P7A
